@@ -73,6 +73,12 @@ def chainedLock (s : Store) (lock bstar : Block) : Block :=
   | some b1 => if b1.view > lock.view then b1 else lock
   | none => lock
 
+/-- The replica can work out the lock that a vote for `b` entails: the block certified by the QC
+of `b`'s certified block is in its store (or there is none: zero hash).  A replica that lacks it
+abstains (chained and simplified HotStuff; repaired code). -/
+def LockTargetKnown (s : Store) (b : Block) : Prop :=
+  ∀ j, justified s b = some j → j.qcHash = 0 ∨ (s j.qcHash).isSome = true
+
 /-- `safeNode`: safety rule (extends the locked block) or liveness rule (justified by a block
 higher than the lock). -/
 def ChainedVotes (s : Store) (lock b : Block) : Prop :=
